@@ -28,8 +28,19 @@ for f in sys.argv[1:]:
                      'first_result': prev.get('first_result', {'check_violations': int(nv), 'check_exit': ex})}
 for key, r in sorted(rows.items()):
     pid, n = key.split('-')
-    src = f'/tmp/wt/{pid}/_seed/{n}' if os.path.isdir(f'/tmp/wt/{pid}/_seed/{n}') else f'/tmp/wt2/{pid}/_seed/{n}'
+    src = next((f'{b}/{pid}/_seed/{n}' for b in ('/tmp/wt', '/tmp/wt2', '/tmp/wt3') if os.path.isdir(f'{b}/{pid}/_seed/{n}')), '/nonexistent')
     dst = os.path.join(V, 'seeded', key)
+    if not os.path.isdir(src) and os.path.isdir(dst):
+        try:
+            meta = json.load(open(os.path.join(dst, 'meta.json')))
+            meta['our_check'].update({'violations_reported': r['check_violations'], 'exit': r['check_exit'], 'harnesses_that_reported': r['caught_by'] or meta['our_check'].get('harnesses_that_reported', [])})
+            json.dump(meta, open(os.path.join(dst, 'meta.json'), 'w'), indent=1)
+            r['summary'] = meta.get('summary', '')[:300]
+            r['needs'] = meta.get('needs_to_manifest', '')[:300]
+            if not r['caught_by']:
+                r['caught_by'] = meta['our_check'].get('harnesses_that_reported', [])
+        except Exception:
+            pass
     if os.path.isdir(src):
         os.makedirs(dst, exist_ok=True)
         for fn in ('patch.diff', 'demo.py'):
